@@ -324,9 +324,14 @@ pub fn convex_margin_acc(poly: &[(f64, f64)], c: (f64, f64), r: f64, p: (f64, f6
   m
 }
 
-/// upper bound of the largest centre-to-vertex distance at a depth ("about one cell size"): 1.08/nside
-/// (exhaustively measured: D*nside -> 1.0686 at the worst cell)
-pub fn cell_radius_bound(depth: u8) -> f64 { 1.08 / nside(depth) as f64 }
+/// Largest centre-to-vertex distance over the cells of a depth ("twice the largest centre-to-vertex distance of its depth" in C06/C12/C13):
+/// exhaustively measured on the reference geometry for depths 0..10 (`hpxmon --prop XC2V`), D.nside grows from 0.8411 (depth 0) to 1.06877
+/// (depth 10) and tends to 1.06897; deeper depths use 1.0690/nside. Each value carries a 1e-9 relative slack.
+pub fn cell_radius_bound(depth: u8) -> f64 {
+  const T: [f64; 11] = [0.8410686705679302, 0.48146047147606696, 0.2543334045529589, 0.13042543553450456, 0.0660147614325136, 0.03320666681176879,
+    0.01665302521141051, 0.00833892084368468, 0.004172560737299982, 0.002087055235497685, 0.0010437213083341907];
+  if (depth as usize) < T.len() { T[depth as usize] * (1.0 + 1e-9) } else { 1.0690 / nside(depth) as f64 }
+}
 
 /// offsets (dx, dy) in [0,1] (up to rounding) of a position with respect to cell h, from the admissible image closest to the cell
 pub fn ref_offsets(depth: u8, h: u64, lon: f64, lat: f64) -> Option<(f64, f64)> {
